@@ -18,8 +18,9 @@ def grid_of(spec):
 def plan(tier):
     if tier == "quick":
         specs = [(("reg", 3), None, 3), (("reg", 4), None, 2), (("reg", 5), 3, 2),
-                 (("reg", 6), 2, 1), (("near", 3), 3, 2), (("far", 3), None, 1)]
-        Ls = [("reg", L) for L in (1, 2, 3, 4, 5)] + [("near", 3), ("far", 3)]
+                 (("reg", 6), 2, 1), (("near", 3), 3, 2), (("far", 3), None, 1),
+                 (("tiny", 3), 3, 1)]
+        Ls = [("reg", L) for L in (1, 2, 3, 4, 5)] + [("near", 3), ("far", 3), ("tiny", 3)]
     else:
         specs = [(("reg", 3), None, 3), (("reg", 4), None, 2), (("reg", 5), None, 2),
                  (("reg", 6), 3, 2), (("reg", 7), 2, 1), (("near", 3), None, 2),
